@@ -2,7 +2,7 @@
 (* ip6.arpa names that are not embeddings: after EmbedA one octet outside the
    prefix (u, suffix or an IPv4 octet) is overwritten *)
 EXTENDS Dns64Layout
-MCAlphabet == {0, 1, 255}
+MCAlphabet == {0, 255}
 MCLens == LegalLens
 MCCorruptPos == 0..15
 =============================================================================
